@@ -224,6 +224,9 @@ def consteval(expr, repo=None, mod=None, depth=6, env=None):
                 return consteval(v, repo, m2, depth - 1)
         raise NotConst(e.id)
     if isinstance(e, ast.Attribute):
+        if isinstance(e.value, ast.Name) and e.value.id == 'math' and e.attr in ('pi', 'e'):
+            import math
+            return getattr(math, e.attr)
         # module.CONST  or  fcntl.LOCK_EX style symbolic flags
         if isinstance(e.value, ast.Name) and repo is not None and mod is not None:
             imp = mod.imports.get(e.value.id)
